@@ -70,11 +70,18 @@ func (c *Client) Close() error {
 	var err error
 	if channel != nil {
 		if channel.Established() {
-			// Try to close the session gracefully. The listener is still consuming the inbound
-			// envelopes, so that the server's answer is not stuck behind unread ones.
+			// Try to close the session gracefully. Inbound envelopes keep being dispatched meanwhile,
+			// so that the server's answer is not stuck behind unread ones - also when the listener
+			// goroutine is not on this channel right now (it may be waiting for the lock held here).
 			ctx, cancelFunc := context.WithTimeout(context.Background(), time.Second*5)
+			dispatched := make(chan struct{})
+			go func() {
+				defer close(dispatched)
+				_ = c.mux.ListenClient(ctx, channel)
+			}()
 			_, err = channel.FinishSession(ctx)
 			cancelFunc()
+			<-dispatched
 			// The channel is released in any case, also when the session could not be finished
 			_ = channel.Close()
 		} else {
